@@ -4,9 +4,17 @@ package main
 
 import (
 	"encoding/json"
+	"fmt"
+	"os"
+	"path/filepath"
 	"sort"
+	"strconv"
+	"strings"
 
+	"github.com/markusressel/fan2go/internal/configuration"
 	"github.com/markusressel/fan2go/internal/controller"
+	"github.com/markusressel/fan2go/internal/fans"
+	"github.com/markusressel/fan2go/internal/persistence"
 	"github.com/markusressel/fan2go/internal/util"
 )
 
@@ -15,7 +23,14 @@ import (
 type closestIn struct {
 	Pm   [][2]int `json:"pm"` // key-sorted
 	Reqs []int    `json:"reqs"`
+	// how the map reaches the controller: "" = set directly; "config" = `pwmMap:` override of a real FileFan
+	// through the real computePwmMap; "persist" = saved with the real persistence layer (first start) and
+	// loaded by computePwmMap (later start)
+	Route string `json:"route,omitempty"`
 }
+
+var closestWork string
+var closestSeq int
 type closestObs struct {
 	Supported []int  `json:"supported"`
 	Closest   []*int `json:"closest"` // nil = panic
@@ -33,7 +48,48 @@ func runClosest(in closestIn) (closestObs, string) {
 	obs.Supported = append([]int{}, keys...)
 	fan := &RecFan{Id: "rec", MaxP: 255}
 	c := controller.VerifNewController(nil, fan, nil, nil, 0)
-	c.VerifSetPwmMap(pm)
+	var filePath string
+	switch in.Route {
+	case "":
+		c.VerifSetPwmMap(pm)
+	case "config", "persist":
+		closestSeq++
+		dir := filepath.Join(closestWork, fmt.Sprintf("r%d", closestSeq))
+		_ = os.MkdirAll(dir, 0o755)
+		defer os.RemoveAll(dir)
+		given := map[int]int{} // the controller gets its own copy: the recorded input stays what it was
+		for k, v := range pm {
+			given[k] = v
+		}
+		if in.Route == "config" {
+			filePath = filepath.Join(dir, "pwm")
+			_ = os.WriteFile(filePath, []byte("0"), 0o644)
+			ff, err := fans.NewFan(configuration.FanConfig{ID: "rec", Curve: "c", PwmMap: &given, File: &configuration.FileFanConfig{Path: filePath}})
+			if err != nil {
+				panic(err)
+			}
+			c = controller.VerifNewController(nil, ff, nil, nil, 0)
+		} else {
+			pers := persistence.NewPersistence(filepath.Join(dir, "fan2go.db"))
+			if err := pers.SaveFanPwmMap("rec", given); err != nil {
+				panic(err)
+			}
+			c = controller.VerifNewController(pers, fan, nil, nil, 0)
+		}
+		if p := catch(func() {
+			if err := c.VerifComputePwmMap(); err != nil {
+				panic(err)
+			}
+			c.VerifUpdateDistinct()
+		}); p != "" {
+			panic("route " + in.Route + ": " + p)
+		}
+		keys = append([]int{}, c.VerifDistinct()...)
+		sort.Ints(keys)
+		obs.Supported = append([]int{}, keys...)
+	default:
+		panic("unknown route " + in.Route)
+	}
 	for _, r := range in.Reqs {
 		var cl *int
 		if p := catch(func() { v := util.FindClosest(r, keys); cl = &v }); p != "" {
@@ -42,7 +98,16 @@ func runClosest(in closestIn) (closestObs, string) {
 		obs.Closest = append(obs.Closest, cl)
 		fan.Writes = nil
 		var w *int
-		if p := catch(func() { _ = c.VerifSetPwm(r) }); p == "" && len(fan.Writes) == 1 {
+		if filePath != "" {
+			_ = os.WriteFile(filePath, []byte("-1"), 0o644)
+			if p := catch(func() { _ = c.VerifSetPwm(r) }); p == "" {
+				if b, err := os.ReadFile(filePath); err == nil {
+					if v, err := strconv.Atoi(strings.TrimSpace(string(b))); err == nil && v != -1 {
+						w = &v
+					}
+				}
+			}
+		} else if p := catch(func() { _ = c.VerifSetPwm(r) }); p == "" && len(fan.Writes) == 1 {
 			v := fan.Writes[0]
 			w = &v
 		}
@@ -93,10 +158,29 @@ func interestingReqs(keys []int, rng *Rng, extra int) []int {
 
 func init() {
 	drivers["closest"] = func(ctx *Ctx) {
-		emit := func(in closestIn, tags ...string) {
+		closestWork = ctx.WorkDir
+		emit1 := func(in closestIn, tags ...string) {
 			obs, coq := runClosest(in)
 			nontrivial := len(obs.Supported) >= 2
 			ctx.Emit(Record{In: in, Obs: obs, Coq: coq, Tags: tags, NonTrv: nontrivial})
+		}
+		nEmit := 0
+		emit := func(in closestIn, tags ...string) {
+			r0 := in.Route
+			if r0 == "" {
+				r0 = "direct"
+			}
+			emit1(in, append(tags, "route="+r0)...)
+			nEmit++
+			random := len(tags) > 0 && tags[0] == "random"
+			// every random map, and a rotating tenth of the exhaustive ones, also through the two real routes
+			for ri, route := range []string{"config", "persist"} {
+				if in.Route == "" && (random || nEmit%20 == ri*10) {
+					in2 := in
+					in2.Route = route
+					emit1(in2, append(append([]string{}, tags...), "route="+route)...)
+				}
+			}
 		}
 		for _, raw := range append(ctx.Corpus, ctx.Replay...) {
 			var in closestIn
